@@ -19,7 +19,32 @@ structure St where
 
 def field (st : St) (b : Nat) : Nat := ((st.fields.find? fun p => p.1 == b).map (·.2)).getD 0
 
-def box (st : St) (b : Nat) : String := s!"{b}:{field st b}"
+/-- value tokens stand for payload objects of eight kinds (`b % 8`, mirrored in harness/c18.py):
+0 Box, 1 `{}`, 2 `[]`, 3 a Box whose `__bool__` is False, 4 an object with `__len__() == 0`,
+5 falsy immutable scalars, 6 empty immutable containers, 7 equal-but-distinct truthy scalars -/
+def kind (b : Nat) : Nat := b % 8
+
+def isScalar (b : Nat) : Bool := kind b ≥ 5
+
+/-- canonical name of a value: its id, or the pool slot of an (identity-less) scalar -/
+def vname (b : Nat) : String :=
+  if isScalar b then s!"s{(b / 8) % 4 + (kind b - 5) * 4}" else toString b
+
+/-- is the payload object falsy right now? (an emptied-or-never-filled dict / list is, a filled one
+is not; kinds 3-6 always are) -/
+def falsyOf (st : St) (b : Nat) : Bool :=
+  match kind b with
+  | 0 => false
+  | 1 => field st b == 0
+  | 2 => field st b == 0
+  | 7 => false
+  | _ => true
+
+def box (st : St) (b : Nat) : String := s!"{vname b}:{if isScalar b then 0 else field st b}"
+
+/-- mutate a payload object in place (attribute / item / append); scalars are immutable -/
+def mutateVal (st : St) (b f : Nat) : St × String :=
+  if isScalar b then (st, "immutable") else ({ st with fields := (b, f) :: st.fields }, "ok")
 
 def items (st : St) (kv : List (Nat × Nat)) : String :=
   if kv.isEmpty then "-" else ",".intercalate (kv.map fun (k, b) => s!"{k}={box st b}")
@@ -98,15 +123,27 @@ def step (st : St) (op : List String) : Option (St × String) :=
   | ["pget", c, i] => do
     let c ← c.toNat?; let i ← i.toNat?
     let p ← st.proxies[i]?
-    let pv := proxyView st.w c p
+    let pv := proxyViewSrc (falsyOf st) st.w c p
     let o := match pv.obj with | some b => box st b | none => "RuntimeError"
     pure (st, s!"{o},{if pv.truthy then "True" else "False"},{if pv.fallbackRepr then "unbound" else "Box"}")
   | ["pmut", c, i, f] => do
     let c ← c.toNat?; let i ← i.toNat?; let f ← f.toNat?
     let p ← st.proxies[i]?
-    match resolve st.w c p with
-    | some b => pure ({ st with fields := (b, f) :: st.fields }, "ok")
+    match resolveSrc (falsyOf st) st.w c p with
+    | some b => pure (mutateVal st b f)
     | none => pure (st, "RuntimeError")
+  | ["amut", c, v, k, f] => do
+    -- mutate through the attribute value that was read
+    let c ← c.toNat?; let v ← v.toNat?; let k ← k.toNat?; let f ← f.toNat?
+    match (runProg st.w c v { key := k } Gen.LocalOps.localGetattr).2 with
+    | .val b => pure (mutateVal st b f)
+    | _ => pure (st, "AttributeError")
+  | ["tmut", c, v, f] => do
+    -- mutate through what `top` returned
+    let c ← c.toNat?; let v ← v.toNat?; let f ← f.toNat?
+    match (runProg st.w c v {} Gen.LocalOps.stackTop).2 with
+    | .val b => pure (mutateVal st b f)
+    | _ => pure (st, "None")
   | _ => none
 
 def drainCtx (st : St) (c : Nat) : Nat → St → List String → St × List String
